@@ -108,6 +108,22 @@ def replay_names(inp):
     return out or None
 
 
+def refine_isalpha(conc):
+    """Ground truth for the uninterpreted str.isalpha outside ASCII, for the 256-block around every code
+    point of a witness that did not reproduce (counterexample-guided refinement of the one modelled builtin)."""
+    out = []
+    for seq in (conc.get("A") or []), (conc.get("B") or []):
+        for v in seq:
+            v = int(v)
+            if v < 128:
+                continue
+            base = v - v % 256
+            for k in range(max(128, base), min(base + 256, 0x110000)):
+                out.append(strings.UF_ISALPHA_NONASCII(z3.IntVal(k)) == z3.BoolVal(chr(k).isalpha()))
+    return out
+
+
+
 def job_names(jc):
     g, _ = instrumented()
     jc.encode(GLYPH.glyph_name, GLYPH._name)
@@ -131,7 +147,7 @@ def job_names(jc):
         A, B, na, nb = r.value
         na, nb = SymStr.of(na), (SymStr.of(nb) if nb is not None else None)
         jc.reach(r, "ok")
-        jc.prove(r, legal_name(na), "glyph name is legal in feature files (grammar, <= 63 chars)", inp, replay_names, key="C04:names:illegal")
+        jc.prove(r, legal_name(na), "glyph name is legal in feature files (grammar, <= 63 chars)", inp, replay_names, key="C04:names:illegal", refine=refine_isalpha)
         if nb is None:
             continue
         if len(A) == len(B):
@@ -143,7 +159,7 @@ def job_names(jc):
             # decided without a query: lengths or a concrete character differ
             jc.obligations.setdefault("distinct by length/concrete char (no query needed)", {"unsat": 0, "sat": 0, "unknown": 0})["unsat"] += 1
             continue
-        jc.prove(r, z3.Implies(eq, same_seq), "distinct code point sequences get distinct glyph names", inp, replay_names, key="C04:names:collision")
+        jc.prove(r, z3.Implies(eq, same_seq), "distinct code point sequences get distinct glyph names", inp, replay_names, key="C04:names:collision", refine=refine_isalpha)
         jc.sample(A=ca, B=cb, name_a=repr(na)[:60])
 
 
@@ -173,12 +189,12 @@ def job_long_names(jc):
         A, B, na, nb = r.value
         na, nb = SymStr.of(na), SymStr.of(nb)
         jc.reach(r, "hashed" if na.source is not None else "plain")
-        jc.prove(r, legal_name(na), "glyph name is legal in feature files (grammar, <= 63 chars)", inp, replay_names, key="C04:names:illegal")
+        jc.prove(r, legal_name(na), "glyph name is legal in feature files (grammar, <= 63 chars)", inp, replay_names, key="C04:names:illegal", refine=refine_isalpha)
         same_seq = z3.And(*[a.t == b.t for a, b in zip(A, B)]) if len(A) == len(B) else z3.BoolVal(False)
         eq = na.eq_term(nb)
         if z3.is_false(z3.simplify(eq)):
             continue
-        jc.prove(r, z3.Implies(eq, same_seq), "distinct long sequences get distinct (hashed) glyph names", inp, replay_names, key="C04:names:collision")
+        jc.prove(r, z3.Implies(eq, same_seq), "distinct long sequences get distinct (hashed) glyph names", inp, replay_names, key="C04:names:collision", refine=refine_isalpha)
 
 
 # ---------------------------------------------------------------- fea rules
